@@ -1,6 +1,6 @@
 #!/bin/bash
 # Runs the repository's test suite (guard OFF) and compares with BASELINE.json stable_pass.
-cd /repo
+cd "${REPO:-/repo}"
 export GOFLAGS=-mod=mod GOPROXY=off GOSUMDB=off GOTOOLCHAIN=local
 go test -json -vet=off -count=1 -timeout 25m ./... 2>/dev/null > /tmp/baseline_run.json
 python3 - <<'PY'
